@@ -11,6 +11,7 @@ import (
 	"mellium.im/xmlstream"
 	"mellium.im/xmpp"
 	"mellium.im/xmpp/internal/attr"
+	"mellium.im/xmpp/internal/verifhook"
 	"mellium.im/xmpp/jid"
 	"mellium.im/xmpp/stanza"
 )
@@ -119,6 +120,7 @@ func (c *Channel) LeavePresence(ctx context.Context, status string, p stanza.Pre
 		}
 	}(errChan)
 
+	verifhook.Yield("muc.leave.select")
 	select {
 	case err := <-errChan:
 		return err
@@ -262,6 +264,7 @@ func (c *Channel) JoinPresence(ctx context.Context, p stanza.Presence, opt ...Op
 		}
 	}(errChan)
 
+	verifhook.Yield("muc.join.select")
 	select {
 	case err := <-errChan:
 		return err
